@@ -152,6 +152,19 @@ fn listing_json(root: &Path) -> J {
 
 pub fn make_config(root: &Path, cfg: &J) -> anyhow::Result<Config> {
     let inv = root.to_str().unwrap();
+    if let Some(opts) = cfg.get("file_options").and_then(J::as_array) {
+        // the same settings through a config file whose keys are written in the given order
+        let mut m = serde_yaml::Mapping::new();
+        for kv in opts {
+            let k = kv.get(0).and_then(J::as_str).unwrap_or("");
+            let v: serde_yaml::Value = serde_json::from_value(kv.get(1).cloned().unwrap_or(J::Null))?;
+            m.insert(serde_yaml::Value::String(k.to_string()), v);
+        }
+        std::fs::write(root.join("reclass-config.yml"), serde_yaml::to_string(&serde_yaml::Value::Mapping(m))?)?;
+        let mut c = Config::new(Some(inv), None, None, None)?;
+        c.load_from_file("reclass-config.yml", false)?;
+        return Ok(c);
+    }
     let ignore = cfg.get("ignore_class_notfound").and_then(J::as_bool);
     let mut c = Config::new(Some(inv), None, None, ignore)?;
     if let Some(b) = cfg.get("compose_node_name").and_then(J::as_bool) {
@@ -208,7 +221,7 @@ pub fn run(req: &mut J) -> Result<J, String> {
             return Ok(J::Object(obs));
         }
     };
-    let r = match Reclass::new_from_config(cfg) {
+    let mut r = match Reclass::new_from_config(cfg) {
         Ok(r) => r,
         Err(e) => {
             obs.insert("discover".into(), json!({"err": rel_str(&root, &format!("{e}"))}));
@@ -298,7 +311,138 @@ pub fn run(req: &mut J) -> Result<J, String> {
     if let Err(e) = r.render_node("no-such-node-xyz") {
         obs.insert("unknown".into(), json!({"err": format!("{e}")}));
     }
+    if let Some(steps) = req.get("lifecycle").and_then(J::as_array).cloned() {
+        let j = lifecycle(&root, &cfgj, &mut r, &names, &singles, &steps);
+        obs.insert("lifecycle".into(), j);
+    }
     Ok(J::Object(obs))
+}
+
+/// Reconfiguration steps of the `lifecycle` part: applied to a live instance through the public
+/// methods, and to a fresh `Config` before construction.
+fn apply_steps_live(r: &mut Reclass, steps: &[J]) -> Vec<J> {
+    let mut out = vec![];
+    for s in steps {
+        if let Some(f) = s.get("set_flag").and_then(J::as_str) {
+            match CompatFlag::try_from(f) {
+                Ok(fl) => {
+                    r.set_compat_flag(fl);
+                    out.push(json!("ok"));
+                }
+                Err(e) => out.push(json!({"err": format!("{e}")})),
+            }
+        } else if let Some(f) = s.get("unset_flag").and_then(J::as_str) {
+            match CompatFlag::try_from(f) {
+                Ok(fl) => {
+                    r.unset_compat_flag(&fl);
+                    out.push(json!("ok"));
+                }
+                Err(e) => out.push(json!({"err": format!("{e}")})),
+            }
+        } else if s.get("clear_flags").is_some() {
+            r.clear_compat_flags();
+            out.push(json!("ok"));
+        } else if let Some(ps) = s.get("patterns").and_then(J::as_array) {
+            let ps: Vec<String> = ps.iter().filter_map(|p| p.as_str().map(str::to_string)).collect();
+            match r.set_ignore_class_notfound_regexp(ps) {
+                Ok(()) => out.push(json!("ok")),
+                Err(e) => out.push(json!({"err": format!("{e}")})),
+            }
+        } else if let Some(n) = s.get("render").and_then(J::as_str) {
+            let _ = r.render_node(n);
+            out.push(json!("ok"));
+        } else if s.get("render_inventory").is_some() {
+            let _ = r.render_inventory();
+            out.push(json!("ok"));
+        } else {
+            out.push(json!({"err": "unknown step"}));
+        }
+    }
+    out
+}
+
+fn apply_steps_config(c: &mut Config, steps: &[J]) {
+    for s in steps {
+        if let Some(f) = s.get("set_flag").and_then(J::as_str) {
+            if let Ok(fl) = CompatFlag::try_from(f) {
+                c.compatflags.insert(fl);
+            }
+        } else if let Some(f) = s.get("unset_flag").and_then(J::as_str) {
+            if let Ok(fl) = CompatFlag::try_from(f) {
+                c.compatflags.remove(&fl);
+            }
+        } else if s.get("clear_flags").is_some() {
+            c.compatflags.clear();
+        } else if let Some(ps) = s.get("patterns").and_then(J::as_array) {
+            let ps: Vec<String> = ps.iter().filter_map(|p| p.as_str().map(str::to_string)).collect();
+            // a failed call leaves the previous patterns in place, on the live instance as well
+            let _ = c.set_ignore_class_notfound_regexp(ps);
+        }
+    }
+}
+
+fn render_all(root: &Path, r: &Reclass, names: &[String]) -> BTreeMap<String, J> {
+    let mut m = BTreeMap::new();
+    for n in names {
+        let j = match r.render_node(n) {
+            Ok(info) => json!({"ok": nodeinfo_json(root, &info)}),
+            Err(e) => json!({"err": rel_str(root, &format!("{e}"))}),
+        };
+        m.insert(n.clone(), j);
+    }
+    m
+}
+
+/// C12/C18/C20: an instance that has rendered, is then reconfigured through its public methods and
+/// renders again must behave like a fresh instance built with the final configuration; a clone
+/// taken before the reconfiguration must keep behaving like the original.
+fn lifecycle(root: &Path, cfgj: &J, live: &mut Reclass, names: &[String], singles: &BTreeMap<String, J>, steps: &[J]) -> J {
+    let before_clone = live.clone();
+    let step_results = apply_steps_live(live, steps);
+    let after = render_all(root, live, names);
+    let fresh = match make_config(root, cfgj) {
+        Ok(mut c) => {
+            apply_steps_config(&mut c, steps);
+            match Reclass::new_from_config(c) {
+                Ok(f) => Some(render_all(root, &f, names)),
+                Err(_) => None,
+            }
+        }
+        Err(_) => None,
+    };
+    let mut diffs: Vec<String> = vec![];
+    match &fresh {
+        Some(f) => {
+            for n in names {
+                if after.get(n) != f.get(n) {
+                    diffs.push(format!(
+                        "node {n}: the reconfigured instance gives {} but a fresh instance with the same settings gives {}",
+                        after.get(n).map(|j| j.to_string()).unwrap_or_default().chars().take(300).collect::<String>(),
+                        f.get(n).map(|j| j.to_string()).unwrap_or_default().chars().take(300).collect::<String>()
+                    ));
+                }
+            }
+        }
+        None => diffs.push("could not build the fresh instance".into()),
+    }
+    // the clone taken before the steps still has the old settings; render it after the live one
+    let again = render_all(root, &before_clone, names);
+    let mut clone_diffs: Vec<String> = vec![];
+    for n in names {
+        if again.get(n) != singles.get(n) {
+            clone_diffs.push(format!("node {n}: a clone taken before the reconfiguration renders differently after the other instance was reconfigured and rendered"));
+        }
+    }
+    // and the live one once more (after the clone rendered)
+    let after2 = render_all(root, live, names);
+    for n in names {
+        if after2.get(n) != after.get(n) {
+            clone_diffs.push(format!("node {n}: the reconfigured instance renders differently after its sibling clone rendered"));
+        }
+    }
+    let reported = json!({"patterns": live.config.get_ignore_class_notfound_regexp(), "literal_dots": live.config.compatflags.contains(&CompatFlag::ComposeNodeNameLiteralDots)});
+    json!({"steps": step_results, "after_eq_fresh": diffs.is_empty(), "diffs": diffs.into_iter().take(3).collect::<Vec<_>>(),
+           "clone_stable": clone_diffs.is_empty(), "clone_diffs": clone_diffs.into_iter().take(3).collect::<Vec<_>>(), "reported": reported})
 }
 
 
